@@ -508,7 +508,59 @@ def oracle(ctx, hints=()):
     cap = import_capture_probe(ctx.rng)
     viol += cap
     stats['import_capture_probes'] = 2 * 3 * 3
+    viol += thread_probe()
+    stats['thread_probes'] = 4
     return {'evaluations': evals + 18, 'distinct_nontrivial': nontriv, 'violations': viol, 'samples': [sample], 'stats': stats, 'exhaustive': False}
+
+
+def thread_probe():
+    """the switch is ONE package-wide state: an assignment is seen by every thread of the process, whichever thread made it (a history
+    of assignments and calls spread over threads is still a history)"""
+    import threading
+    import xfab
+    from xfab import tools
+    out = []
+    bad = np.array([[1.0, 0.2, 0.0], [0.0, 1.0, 0.0], [0.0, 0.0, 1.0]])
+
+    def in_worker(fn):
+        box = {}
+
+        def w():
+            try:
+                box['r'] = fn()
+            except Exception as e:
+                box['r'] = 'raised ' + type(e).__name__
+        t = threading.Thread(target=w)
+        t.start()
+        t.join()
+        return box.get('r')
+
+    def rejects():
+        try:
+            tools.u_to_rod(bad)
+            return False
+        except ValueError:
+            return True
+
+    def v(what, obs, exp):
+        out.append({'fn': 'CHECKS.activated', 'threads': True, 'what': what, 'observed': repr(obs), 'expected': repr(exp), 'program': [],
+                    'known_id': None})
+    try:
+        xfab.CHECKS.activated = False
+        r = in_worker(lambda: xfab.CHECKS.activated)
+        if r is not False:
+            v('switched off in the main thread, read in a worker thread', r, False)
+        r = in_worker(rejects)
+        if r is not False:
+            v('switched off in the main thread, invalid matrix passed to u_to_rod in a worker thread', 'rejected' if r is True else r, 'not rejected')
+        in_worker(lambda: setattr(xfab.CHECKS, 'activated', True))
+        if xfab.CHECKS.activated is not (True and __debug__):
+            v('switched on in a worker thread, read in the main thread', xfab.CHECKS.activated, True)
+        elif __debug__ and not rejects():
+            v('switched on in a worker thread, invalid matrix passed to u_to_rod in the main thread', 'not rejected', 'rejected')
+    finally:
+        xfab.CHECKS.activated = True
+    return out
 
 
 def _load_fresh(modname):
@@ -570,6 +622,10 @@ def replay(payload):
     if not v:
         print('replay: broken obligation, no input stored:', payload.get('broken'))
         return 1
+    if v.get('threads'):
+        res = thread_probe()
+        print('replay C20 %s (%s) ->' % (v['fn'], v.get('what')), 'VIOLATION' if res else 'holds')
+        return 1 if res else 0
     if v.get('import_capture'):
         res = import_capture_probe(None, replay_case=v)
         print('replay C20 %s (%s) ->' % (v['fn'], v.get('what')), 'VIOLATION' if res else 'holds')
